@@ -671,85 +671,13 @@ def opt_gate(repo, res):
     _quadrature_matrix(repo, res, ru, cq)
     rep = repo.mod("ffcx.ir.representation")
     # (the rule builder ignores the option for non-cell integrals - quadrature matrix above - so the caller need not filter)
-    # ---- part = diagonal: every test of the option is conjoined with / dominated by a rank-2 test
-    sites = [
-        ("ffcx.codegeneration.jit", "compile_forms", r"p\['part'\] == 'diagonal'", r"arity == 2"),
-        ("ffcx.ir.representation", "_compute_integral_ir", r"ir\['part'\] == TensorPart\.diagonal", r"form_data\.rank == 2"),
-        ("ffcx.ir.representation", "_compute_form_ir", r"tensor_part == TensorPart\.diagonal", r"len\(args\) == 2"),
-        (IG, "IntegralGenerator.generate_block_parts", r"self\.ir\.part == TensorPart\.diagonal", r"block_rank == 2"),
-        ("ffcx.ir.integral", "_compute_integral_ir", r"TensorPart\.from_str\(p\['part'\]\) == TensorPart\.diagonal", r"len\((blockmap|ma_indices|trs)\) == 2"),
-    ]
-    # every other test of the option anywhere in the package must be triaged here (exempt = reason)
-    exempt = {
-        "p['part'] == TensorPart.diagonal": "ir.integral: compares the option string with the enum (never true); body only asserts a bilinear form",
-        "TensorPart.from_str(p['part']) != TensorPart.diagonal": "ir.integral: the full-tensor branch; body is an assert",
-    }
-    listed = {(mn, q_) for mn, q_, _o, _r in sites}
-    for mod in repo.modules.values():
-        for fn_ in mod.funcs.values():
-            for n in walk_no_nested(fn_.node):
-                if isinstance(n, (ast.If, ast.IfExp)) and "diagonal" in ast.unparse(n.test):
-                    t = ast.unparse(n.test)
-                    qn = fn_.key.split(":", 1)[1]
-                    if (mod.name, qn) in listed or t in exempt or qn.startswith("TensorPart."):
-                        continue
-                    raise AnalysisError(f"{fn_.key}: untriaged test of the `part` option `{t}` (add it to the OPT-GATE site table)")
-    for modname, q, opt_pat, rank_pat in sites:
-        m = repo.mod(modname)
-        h = m.func(q)
-        res.functions.add(h.key)
-        cfg = CFG(h.node)
-        tests = [(tid, st) for tid, st in cfg.if_stmt.items() if re.search(opt_pat, ast.unparse(st.test))]
-        if not tests:
-            if modname == "ffcx.ir.integral":
-                continue  # its absence is reported by `diagonal-skips-offdiagonal-blocks` below
-            raise AnalysisError(f"{q}: test of the `part` option not found")
-        rank_tests = [tid for tid, st in cfg.if_stmt.items() if re.search(rank_pat, ast.unparse(st.test))]
-        for tid, st in tests:
-            key = f"{h.key}:diagonal-gated:{len([k for k in res.instances if k.startswith(h.key + ':diagonal-gated')])}"
-            res.ob(key)
-            t = ast.unparse(st.test)
-            same = re.search(rank_pat, t) is not None and " or " not in t
-            # or: every statement of the body that indexes / mutates is under a rank test inside
-            inner_ok = False
-            if not same:
-                body_nodes = set()
-                for e in cfg.if_true[tid]:
-                    body_nodes |= cfg.reachable(e, kinds=("n",))
-                effect = [n for n in st.body if not isinstance(n, (ast.For, ast.If))]
-                inner_ok = not effect and all(any(re.search(rank_pat, ast.unparse(x.test)) for x in ast.walk(b) if isinstance(x, ast.If)) for b in st.body)
-            if not (same or inner_ok):
-                bad = [ast.unparse(b)[:50] for b in st.body][:2]
-                res.fail(key, f"{q}: `if {t}` acts ({'; '.join(bad)}) without requiring a bilinear form ({rank_pat}): with part=\"diagonal\" a functional or "
-                         "linear form takes this branch (IndexError on B_indices[0] for rank 0) although the option does not apply to it", m.line(st))
-    # DIAG-SITES: agreement of the effects
-    ci = rep.func("_compute_integral_ir")
-    s = ast.unparse(ci.node)
-    key = f"{ci.key}:diagonal-effects"
-    res.ob(key)
-    if not (re.search(r"diagonalise = True\n\s+ir\['rank'\] = 1\n\s+assert form_data\.argument_elements\[0\] == form_data\.argument_elements\[1\]", s)
-            and "'part': TensorPart.from_str(options['part'])" in s):
-        res.fail(key, "diagonal assembly: rank 1 and identical argument elements are not established together", rep.line(ci.node))
-    gb = repo.mod(IG).func("IntegralGenerator.generate_block_parts")
-    s = ast.unparse(gb.node)
-    key = f"{gb.key}:diagonal-shared-index"
-    res.ob(key)
-    if not re.search(r"assert len\(A_shape\) == 1\n\s+B_indices = \[B_indices\[0\], B_indices\[0\]\]", s) or not re.search(r"insert_rank = 1\n\s+B_indices = \[B_indices\[0\]\]", s):
-        res.fail(key, "diagonal assembly: both argument tables must share the first loop index and A must be indexed by it alone", repo.mod(IG).line(gb.node))
-    cf = repo.mod("ffcx.ir.representation").func("compute_ir")
-    key = f"{cf.key}:diagonal-to-form"
-    res.ob(key)
-    if "diagonalise = TensorPart.from_str(str(options['part']))" not in ast.unparse(cf.node):
-        res.fail(key, "the form IR is not told about part=diagonal", rep.line(cf.node))
-    jf = repo.mod("ffcx.codegeneration.jit").func("compile_forms")
-    s = ast.unparse(jf.node)
-    key = f"{jf.key}:diagonal-blocks"
-    res.ob(key)
-    if not (re.search(r"blocked_form = ufl\.extract_blocks\(form, replace_argument=False\)", s) and re.search(r"if blocked_form\[j\]\[j\] is not None:\n\s+diagonal_form \+= blocked_form\[j\]\[j\]", s)
-            and "forms[i] = diagonal_form" in s):
-        res.fail(key, "mixed spaces: the diagonal form is not the sum of the diagonal blocks (j, j)", "ffcx/codegeneration/jit.py")
-    # diagonal mode: only blocks on the diagonal (row dofs == column dofs) may contribute
+    # ---- part = diagonal. Where the option acts, and that it acts on bilinear forms only, is decided by interpreting each of the five
+    # sites on samples of rank 0, 1 and 2 with and without the option: JIT-DIAGONAL (jit.compile_forms, diagonal blocks of mixed forms),
+    # GEN-INTEGRAL-IR (representation._compute_integral_ir: rank, tensor shape), FORM-IR-SOURCES (_compute_form_ir), GEN-IRBLOCKS
+    # (ir.integral: which blocks contribute), GEN-BLOCKS (IntegralGenerator.generate_block_parts: shared index), DIAG-TO-FORM (compute_ir
+    # hands the option to the form IR). The site table of source patterns that used to stand here was removed.
     im = repo.mod("ffcx.ir.integral")
+    # diagonal mode: only blocks on the diagonal (row dofs == column dofs) may contribute
     cii = im.func("_compute_integral_ir")
     res.functions.add(cii.key)
     key = f"{cii.key}:diagonal-skips-offdiagonal-blocks"
@@ -758,33 +686,33 @@ def opt_gate(repo, res):
     for n in ast.walk(cii.node):
         if isinstance(n, ast.For) and "argument_factorization.items()" in ast.unparse(n.iter):
             loop = n
-    if loop is None:
-        raise AnalysisError("_compute_integral_ir: loop over the argument factorisation not found")
-    app = [c for c in calls_in(loop) if isinstance(c.func, ast.Attribute) and c.func.attr == "append" and isinstance(c.func.value, ast.Subscript)
-           and ast.unparse(c.func.value.value) == "block_contributions"]
-    if len(app) != 1:
-        raise AnalysisError("compute_integral_ir: block_contributions[...].append not found exactly once")
-    bm = ast.unparse(app[0].func.value.slice)
-    app_stmt = [i for i, st in enumerate(loop.body) if any(x is app[0] for x in ast.walk(st))]
-    ok = False
-    for i, st in enumerate(loop.body):
-        if not isinstance(st, ast.If) or not app_stmt or i >= app_stmt[0]:
-            continue
-        t = ast.unparse(st.test)
-        cmp_ = [c for c in ast.walk(st.test) if isinstance(c, ast.Compare) and len(c.ops) == 1 and isinstance(c.ops[0], ast.NotEq)
-                and {ast.unparse(c.left), ast.unparse(c.comparators[0])} == {f"{bm}[0]", f"{bm}[1]"}]
-        if "diagonal" in t and cmp_ and any(isinstance(b, ast.Continue) for b in st.body) and isinstance(st.test, ast.BoolOp) and isinstance(st.test.op, ast.And):
-            ok = True
-    other_skip = [st for i, st in enumerate(loop.body) if isinstance(st, ast.If) and "diagonal" in ast.unparse(st.test)
-                  and any(isinstance(x, ast.Continue) for x in ast.walk(st))]
-    if not ok and other_skip:
-        res.fail(key, f"part=\"diagonal\": blocks are skipped under `{ast.unparse(other_skip[0].test)[:90]}` ... rather than by inequality of the two arguments' dof maps. "
-                 "Whether a block has diagonal entries is decided by its dofs: different components living on the same dofs (RT, BDM, N1curl) do contribute to "
-                 "A[i,i] and would be dropped; equal components with different dof ranges would be kept", im.line(other_skip[0]))
-    elif not ok:
-        res.fail(key, "part=\"diagonal\": every block of the argument factorisation is accumulated into the rank-1 tensor with one shared dof index, "
-                 "including blocks whose row and column dofs differ (other component or sub-element, or the two sides of an interior facet): "
-                 "jump(u)*jump(v)*dS and inner(sym(grad(u)), sym(grad(v)))*dx on mixed(P2^2, P1) do not give diag(A)", im.line(loop))
+    app = [] if loop is None else [c for c in calls_in(loop) if isinstance(c.func, ast.Attribute) and c.func.attr == "append" and isinstance(c.func.value, ast.Subscript)
+                                   and ast.unparse(c.func.value.value) == "block_contributions"]
+    if loop is None or len(app) != 1:
+        # which blocks contribute is decided by GEN-IRBLOCKS (function interpreted); this reading of the loop only adds the reason
+        res.notes.append("ir.integral._compute_integral_ir: block loop not in the recognised shape; the diagonal block filter is decided by GEN-IRBLOCKS alone")
+    else:
+        bm = ast.unparse(app[0].func.value.slice)
+        app_stmt = [i for i, st in enumerate(loop.body) if any(x is app[0] for x in ast.walk(st))]
+        ok = False
+        for i, st in enumerate(loop.body):
+            if not isinstance(st, ast.If) or not app_stmt or i >= app_stmt[0]:
+                continue
+            t = ast.unparse(st.test)
+            cmp_ = [c for c in ast.walk(st.test) if isinstance(c, ast.Compare) and len(c.ops) == 1 and isinstance(c.ops[0], ast.NotEq)
+                    and {ast.unparse(c.left), ast.unparse(c.comparators[0])} == {f"{bm}[0]", f"{bm}[1]"}]
+            if "diagonal" in t and cmp_ and any(isinstance(b, ast.Continue) for b in st.body) and isinstance(st.test, ast.BoolOp) and isinstance(st.test.op, ast.And):
+                ok = True
+        other_skip = [st for i, st in enumerate(loop.body) if isinstance(st, ast.If) and "diagonal" in ast.unparse(st.test)
+                      and any(isinstance(x, ast.Continue) for x in ast.walk(st))]
+        if not ok and other_skip:
+            res.fail(key, f"part=\"diagonal\": blocks are skipped under `{ast.unparse(other_skip[0].test)[:90]}` ... rather than by inequality of the two arguments' dof maps. "
+                     "Whether a block has diagonal entries is decided by its dofs: different components living on the same dofs (RT, BDM, N1curl) do contribute to "
+                     "A[i,i] and would be dropped; equal components with different dof ranges would be kept", im.line(other_skip[0]))
+        elif not ok:
+            res.fail(key, "part=\"diagonal\": every block of the argument factorisation is accumulated into the rank-1 tensor with one shared dof index, "
+                     "including blocks whose row and column dofs differ (other component or sub-element, or the two sides of an interior facet): "
+                     "jump(u)*jump(v)*dS and inner(sym(grad(u)), sym(grad(v)))*dx on mixed(P2^2, P1) do not give diag(A)", im.line(loop))
     # sum factorisation: a 1D factor table is shared between terminals only after its values were compared
     from ..cfg import reaching_definitions
 
